@@ -52,7 +52,9 @@ def templates(tier, seed):
             for idx in (False, True):
                 tds.append(dict(fam="for", body=b, n=n, idx=idx))
     for b in ("relh", "circ", "two0", "group0"):
-        for test in ("gt", "diff", "neg-const", "sum"):
+        for test in ("gt", "diff", "neg-const", "sum", "later-elem", "later-elem-false"):
+            if test.startswith("later-elem") and b in ("relh", "circ"):
+                continue
             tds.append(dict(fam="if", body=b, test=test))
     for b in B:
         for n in (1, 2, 3):
@@ -86,7 +88,14 @@ def build(td, wrong=False):
         ttxt, test = {"gt": (f"gt([[{ka}]], [[{ka + 1}]])", gt(f"v{ka}", f"v{ka + 1}")),
                       "diff": (f"{{{{[[{ka}]] - [[{ka + 1}]]}}}}", ne(f"v{ka}", f"v{ka + 1}")),
                       "neg-const": (f"{{{{[[{ka}]] - [[{ka + 1}]] - 1000}}}}", ne(minus(f"v{ka}", f"v{ka + 1}"), "1000.0")),
-                      "sum": (f"[[{ka}]] + [[{ka + 1}]]", ne(plus(f"v{ka}", f"v{ka + 1}"), "0.0"))}[tform]
+                      "sum": (f"[[{ka}]] + [[{ka + 1}]]", ne(plus(f"v{ka}", f"v{ka + 1}"), "0.0")),
+                      # the test needs an element that is defined further down: it has to be evaluated once that is known
+                      "later-elem": (f"gt(#zz~x, [[{ka + 1}]])", gt(f"v{ka}", f"v{ka + 1}")),
+                      "later-elem-false": (f"lt(#zz~x + 1000, [[{ka + 1}]])", lt(plus(f"v{ka}", "1000.0"), f"v{ka + 1}"))}[tform]
+        if tform.startswith("later-elem"):
+            # ('^' is resolved when an element is processed; for a held-back <if> that is retry time - outside this property.
+            #  The element after the <if> is therefore placed absolutely here, and bodies refer to '^' only internally.)
+            post = f'<rect xy="90 90" wh="1"/><rect id="zz" xy="[[{ka}]] 200" wh="1"/>'
         d0 = f'<svg>{pre}<if test="{ttxt}">{body}</if>{post}</svg>'
         d1 = f"<svg>{pre}{body}{post}</svg>"
         d2 = f"<svg>{pre}{post}</svg>"
@@ -156,6 +165,9 @@ def build(td, wrong=False):
     else:
         raise ValueError(fam)
     post = '<rect xy="^|h 1" wh="1"/>' if td["body"] in ("relh", "circ") else ""
+    # whatever the loop leaves behind (loop variable, counters) is visible to later elements exactly as after the unrolling
+    post += '<rect xy="$i 90" wh="1"/>'
+    pre = f'<var i="[[{alloc([(77, *V)])}]]"/>' + pre
     if td.get("where") == "in-g":
         loop, un = f"<g>{loop}</g>", f"<g>{un}</g>"
     d_loop = f"<svg>{pre}{loop}{post}</svg>"
